@@ -623,6 +623,7 @@ type Frame struct {
 	pendingInv   map[*ssa.BasicBlock]*pendingLoop
 	variant0     map[*ssa.BasicBlock]*Term // value of the loop variant at the loop head
 	args         []Val
+	cur          *ssa.BasicBlock      // block being executed
 	rangeCount   map[*ssa.Range]*Term // ghost iteration counter of range-over-string loops
 }
 
@@ -809,6 +810,7 @@ func (e *Enc) encodeFunc(fn *ssa.Function, args []Val, bindings []Val, in State,
 	defer func() { e.stack = e.stack[:len(e.stack)-1] }()
 
 	for _, b := range rpo(fn) {
+		fr.cur = b
 		var st State
 		if b.Index == 0 {
 			st = in.clone()
